@@ -94,6 +94,18 @@ func deliveryOf(m *pool.Message, body []byte, downLen, nver int) Delivery {
 	return d
 }
 
+// owGot: one-way style - what reaches the client connection's handler is what the client application gets
+func owGot(mu *sync.Mutex, tr *E2ETrace, p Params, r *pool.Message) {
+	mu.Lock()
+	defer mu.Unlock()
+	if tr.Ret != "ok" {
+		tr.Ret, tr.RetCode = "ok", int(r.Code())
+	}
+	if r.Code() == codes.Content || r.Code() == codes.Changed {
+		tr.Got = append(tr.Got, deliveryOf(r, nil, p.L2, len(tr.App)))
+	}
+}
+
 // RunUDP runs one exchange between two real udp connections with a fault schedule on the datagrams.
 func RunUDP(p Params, acts []Act) E2ETrace {
 	tr := E2ETrace{Op: "e2e", Tr: "udp", P: p, Acts: acts, Applied: make([]bool, len(acts)), Msgs: []MsgRec{}, App: []Delivery{}, Got: []Delivery{}, Ret: "none"}
@@ -126,7 +138,11 @@ func RunUDP(p Params, acts []Act) E2ETrace {
 		}
 		_ = w.SetResponse(code, message.AppOctets, bytes.NewReader(DownBody(p.L2, v)), message.Option{ID: message.MaxAge, Value: []byte{7}}, message.Option{ID: message.ETag, Value: []byte{byte(v)}})
 	})
-	C := mk(p.CS, p.CMMS, nil)
+	var hc udpclient.HandlerFunc
+	if p.OW {
+		hc = func(_ *responsewriter.ResponseWriter[*udpclient.Conn], r *pool.Message) { owGot(&mu, &tr, p, r) }
+	}
+	C := mk(p.CS, p.CMMS, hc)
 	defer S.Close()
 	defer C.Close()
 	ctx, cancel := context.WithCancel(context.Background())
@@ -180,6 +196,23 @@ func RunUDP(p Params, acts []Act) E2ETrace {
 			defer close(done)
 			var resp *pool.Message
 			var err error
+			if p.OW {
+				var req *pool.Message
+				if p.L > 0 {
+					req, err = C.CC.NewPostRequest(ctx, "/res", message.AppOctets, bytes.NewReader(up), message.Option{ID: message.URIQuery, Value: []byte("k=v")})
+				} else {
+					req, err = C.CC.NewGetRequest(ctx, "/res", message.Option{ID: message.URIQuery, Value: []byte("k=v")})
+				}
+				if err == nil {
+					err = C.CC.WriteMessage(req)
+				}
+				mu.Lock()
+				if err != nil && tr.Ret == "none" {
+					tr.Ret = "err"
+				}
+				mu.Unlock()
+				return
+			}
 			if p.L > 0 {
 				resp, err = C.CC.Post(ctx, "/res", message.AppOctets, bytes.NewReader(up), message.Option{ID: message.URIQuery, Value: []byte("k=v")})
 			} else {
@@ -289,7 +322,11 @@ func RunTCP(p Params) E2ETrace {
 		}
 		_ = w.SetResponse(code, message.AppOctets, bytes.NewReader(DownBody(p.L2, v)), message.Option{ID: message.MaxAge, Value: []byte{7}}, message.Option{ID: message.ETag, Value: []byte{byte(v)}})
 	})
-	C := mk(p.CS, p.CMMS, nil)
+	var hc tcpclient.HandlerFunc
+	if p.OW {
+		hc = func(_ *responsewriter.ResponseWriter[*tcpclient.Conn], r *pool.Message) { owGot(&mu, &tr, p, r) }
+	}
+	C := mk(p.CS, p.CMMS, hc)
 	defer S.Close()
 	defer C.Close()
 	// each side learns from the peer's CSM that block-wise transfer is supported (go-coap itself does not advertise it)
@@ -304,6 +341,23 @@ func RunTCP(p Params) E2ETrace {
 		defer close(done)
 		var resp *pool.Message
 		var err error
+		if p.OW {
+			var req *pool.Message
+			if p.L > 0 {
+				req, err = C.CC.NewPostRequest(ctx, "/res", message.AppOctets, bytes.NewReader(up), message.Option{ID: message.URIQuery, Value: []byte("k=v")})
+			} else {
+				req, err = C.CC.NewGetRequest(ctx, "/res", message.Option{ID: message.URIQuery, Value: []byte("k=v")})
+			}
+			if err == nil {
+				err = C.CC.WriteMessage(req)
+			}
+			mu.Lock()
+			if err != nil && tr.Ret == "none" {
+				tr.Ret = "err"
+			}
+			mu.Unlock()
+			return
+		}
 		if p.L > 0 {
 			resp, err = C.CC.Post(ctx, "/res", message.AppOctets, bytes.NewReader(up), message.Option{ID: message.URIQuery, Value: []byte("k=v")})
 		} else {
